@@ -270,7 +270,10 @@ HELD_SRC = (
     "G = 1\n"
     "L = [1]\n"
     "def h():\n"
-    "    return 1\n"
+    "    t = 0\n"
+    "    for i in range(len(L) + 2):\n"
+    "        t = t + i * 0\n"
+    "    return t + 1\n"
     "@m.memento_function\n"
     "def a(x=0):\n"
     "    return G + L[0] + h() + x\n"
@@ -295,7 +298,7 @@ def _held_event(prog, ev):
     elif ev == "mutate-L":
         d["L"][0] = 5
     elif ev == "rebind-h":
-        prog.exec("def h():\n    return 2\n")
+        prog.exec("def h():\n    t = 0\n    for i in range(len(L) + 2):\n        t = t + i * 0\n    return t + 2\n")
     elif ev == "redefine-a":
         prog.exec("@m.memento_function\ndef a(x=0):\n    return G + L[0] + h() + x + 10\n")
     elif ev == "redefine-a-identically":
